@@ -9,6 +9,6 @@ LEVEL = "proof"
 def run(ctx, out):
     dcheck.run_property(ctx, out, "C04", "mon_c04", n_quick=300, n_thorough=5000,
                         gen_kw=dict(ws_share=0.3, batches=0.1, malformed=0.03),
-                        directed=directed.regressions() + directed.dup_members() + directed.equal_looking_values() + directed.case_variants() + directed.long_paths() + directed.fetch_only_rules() + directed.colliding_paths())
+                        directed=directed.regressions() + directed.dup_members() + directed.equal_looking_values() + directed.case_variants() + directed.long_paths() + directed.fetch_only_rules() + directed.colliding_paths() + directed.idless_refusals())
     dcheck.run_more(ctx, out, "C04", "mon_c04", n_quick=100, n_thorough=1500, gen_kw=dict(variant="small", ws_share=0.2, single=True), tag="small")
     out.assumptions += ["refusals by the path index (hopscotch table full) are an oracle input of the model; C17 characterises when they happen"]
